@@ -6,6 +6,7 @@ package main
 // undecorated text; raw bytes = undecorated bytes; every segmentation gives the same bytes.
 
 import (
+	"bufio"
 	"bytes"
 	ej "encoding/json"
 	"fmt"
@@ -58,6 +59,49 @@ func jsRead(r io.Reader) string {
 			return "err " + h.Hex(b)
 		}
 		return "ok " + h.Hex(b)
+	})
+}
+
+// jsMixed consumes the comment reader the way applications combine the standard helpers: the first k bytes through
+// Read with a short slice (sniffing the first byte, a bufio Peek), the rest through io.Copy (which uses WriteTo when a
+// reader offers it) or through a bufio.Reader's WriteTo.
+func jsMixed(in []byte, k, way int) string {
+	return h.Safe(func() string {
+		rd := oj.NewJsonPlusReader(bytes.NewReader(in))
+		var out bytes.Buffer
+		var err error
+		switch way {
+		case 0:
+			head := make([]byte, k)
+			var n int
+			n, err = io.ReadFull(rd, head)
+			out.Write(head[:n])
+			if err == io.EOF || err == io.ErrUnexpectedEOF {
+				err = nil
+			} else if err == nil {
+				_, err = io.Copy(&out, rd)
+			}
+		case 1:
+			br := bufio.NewReaderSize(rd, 16+k)
+			br.Peek(1 + k%16)
+			_, err = br.WriteTo(&out)
+		default:
+			one := make([]byte, 1)
+			for i := 0; i < k && err == nil; i++ {
+				var n int
+				n, err = rd.Read(one)
+				out.Write(one[:n])
+			}
+			if err == io.EOF {
+				err = nil
+			} else if err == nil {
+				_, err = io.Copy(&out, rd)
+			}
+		}
+		if err != nil {
+			return "err " + h.Hex(out.Bytes())
+		}
+		return "ok " + h.Hex(out.Bytes())
 	})
 }
 
@@ -304,12 +348,19 @@ func jsCompare(c *h.Ctx, in []byte, sizes []int) (whole string) {
 	return
 }
 
+var jsMixN int
+
 // jsSegFree: every segmentation yields the same bytes and status (property, on the implementation).
 func jsSegFree(c *h.Ctx, in []byte, sizes []int, whole string) {
 	hx := h.Trunc(h.Hex(in), 3000)
 	c.Hold(jsOneByte(in) == whole, "segmentation_free", "1-byte "+hx, h.Trunc(jsOneByte(in), 400), h.Trunc(whole, 400))
 	c.Hold(jsDataErr(in) == whole, "segmentation_free", "data+eof "+hx, h.Trunc(jsDataErr(in), 400), h.Trunc(whole, 400))
 	c.Hold(jsChunks(in, sizes) == whole, "segmentation_free", fmt.Sprintf("chunks%v %s", sizes, hx), h.Trunc(jsChunks(in, sizes), 400), h.Trunc(whole, 400))
+	jsMixN++
+	if k, way := 1+jsMixN%5, jsMixN%3; true {
+		mixed := jsMixed(in, k, way)
+		c.Hold(mixed == whole, "segmentation_free", fmt.Sprintf("first %d bytes through short Reads, the rest through io.Copy / bufio WriteTo (way %d) %s", k, way, hx), h.Trunc(mixed, 400), h.Trunc(whole, 400))
+	}
 	half := jsRead(iotest.HalfReader(bytes.NewReader(in)))
 	c.Hold(half == whole, "segmentation_free", "half "+hx, h.Trunc(half, 400), h.Trunc(whole, 400))
 }
